@@ -11,6 +11,7 @@ import DadiVerif.Model.DataDict
 
    dd_vcf filt popIds sites                 -> ok snps            | err keyerror      make_data_dict_vcf (+ dict semantics)
    subsample filt want draws popIds sites   -> ok snps left       | err keyerror      … with subsample={pop:k}; want = p:k+p:k
+   kept filt sites                          -> ok 0110…           line by line: does the line enter the dictionary (`siteKept`)
    mkdict snps                              -> ok snps                                later duplicates replace earlier entries
    spec pol mc proj snps                    -> ok data mask usable total | err dim    Spectrum.from_data_dict
    frag size snps                           -> ok chunk|chunk|…   chunk = chrom:pos:info,…   Misc.fragment_data_dict
@@ -116,6 +117,9 @@ def handle (toks : List String) : Option String :=
       match ddSub filt want popIds sites draws [] with
       | some (l, left) => some ("ok " ++ showSnps l ++ " " ++ toString left.length)
       | none => some "err keyerror"
+  | ["kept", filt, sites] => do
+      let filt ← parseBool filt; let sites ← parseSites sites
+      some ("ok " ++ String.mk (sites.map fun st => if siteKept filt st then '1' else '0'))
   | ["mkdict", snps] => do
       let snps ← parseSnps snps
       some ("ok " ++ showSnps (mkDict snps))
